@@ -5,20 +5,18 @@ import os
 
 VERIF = os.path.abspath(os.path.join(os.path.dirname(__file__), ".."))
 
-# property id -> (technique, level text, level note, design ref)
-CLAIMED = {
-    "C09": (
-        "Lean 4 proof (accumulator invariants mod 65535, equality with RFC 1071) + model/implementation correspondence",
-        "Machine-checked theorems in EpModel/Props/C09.lean: for every byte string and accumulator state the modelled "
-        "u32/u64 accumulators add the data modulo 65535 without losing a carry, folding gives the RFC 1071 one's complement "
-        "sum, the result is independent of even splits and of the accumulator width. The model (EpModel/Model/Checksum.lean) "
-        "is tied to checksum.rs on every run by running both on the same generated inputs; an RFC 1071 reference and the Lean "
-        "Spec act as oracle on the implementation's outputs.",
-        "Trusted: Lean kernel, axioms propext/Classical.choice/Quot.sound, the hand-written model and Spec, the correspondence "
-        "harness; 64-bit little-endian target. The theorems are about the model; the code is covered for the explored inputs.",
-        "DESIGN.md section 5 C09",
-    ),
-}
+def load_claims():
+    """one JSON file per claimed property: tools/claims/<id>.json with technique, level_text, level_note, design_ref"""
+    d = {}
+    cdir = os.path.join(VERIF, "tools", "claims")
+    for fn in sorted(os.listdir(cdir)):
+        if fn.endswith(".json"):
+            c = json.load(open(os.path.join(cdir, fn)))
+            d[fn[:-5]] = (c["technique"], c["level_text"], c["level_note"], c.get("design_ref", "DESIGN.md section 5"))
+    return d
+
+
+CLAIMED = load_claims()
 
 NOT_YET = {}
 
